@@ -17,7 +17,7 @@ func init() {
 		Run:   runC12,
 		Explanation: "Decides clauses C12.1-C12.4 of DESIGN.md: (1) sibling agreement of counter adjustments in the reconcile function: every CurrentReplicas++/-- has the fact revision(p) == current revision name for a pod p of that iteration, every UpdatedReplicas++/-- the fact revision(p) == update revision name; adjustments after a pod write are unreachable on that write's error edge; " +
 			"(2) the census loop counts Replicas unconditionally per observed pod, ReadyReplicas under Running ∧ Ready, the revision counters under created ∧ not terminating; (3) ObservedGeneration is assigned only from the reconciled set's Generation; Status.CurrentRevision is assigned only from the current-revision parameter's name and, in the completion rule, from UpdateRevision under type RollingUpdate ∧ UpdatedReplicas == Replicas ∧ ReadyReplicas == Replicas; the current revision is chosen by name equality with the stored status (falling back to the update revision only when none is found); " +
-			"(4) the status write is guarded by the change predicate, which contains the four counters, both revision names and `new generation > stored generation`. NOT decided: counter bounds and the census as numbers over all states.",
+			"(4) the status write is guarded by the change predicate, which contains the four counters, both revision names and `new generation > stored generation`. (6) no status write is reachable when the reconcile function returned an error. NOT decided: counter bounds and the census as numbers over all states.",
 	})
 }
 
